@@ -59,7 +59,8 @@ Record transfer := mkTr { tr_to : bytes; tr_amount : Z; tr_data : option (bytes 
 Record env := mkEnv {
   e_height : Z;                 (* ledger.CurrentIndex() *)
   e_committee : list bytes;     (* neo.GetCommittee() *)
-  e_designated : list bytes;    (* roles.GetDesignatedByRole(NeoFSAlphabet, height+1) *)
+  e_designated : Z -> list bytes;  (* index |-> roles.GetDesignatedByRole(NeoFSAlphabet, index):
+                                      the list in force for the block with that index *)
   e_witnessed : list bytes;     (* script hashes h with runtime.CheckWitness(h) = true *)
   (* only the Alphabet contract's 0.16 -> 0.17 switch looks at the rest *)
   e_gas : Z;                            (* gas.BalanceOf(this contract) *)
@@ -96,8 +97,10 @@ Section Model.
   Definition gate_address (c : contract) (e : env) : outcome bytes :=
     match c with
     | CNeoFS | CProcessing =>
-        (* common.Multiaddress(roles.GetDesignatedByRole(NeoFSAlphabet, height+1), true) *)
-        multiaddress (e_designated e) true
+        (* common.Multiaddress(roles.GetDesignatedByRole(NeoFSAlphabet, CurrentIndex()+1), true):
+           CurrentIndex() is the last persisted block, so height+1 is the
+           block the transaction executes in *)
+        multiaddress (e_designated e (e_height e + 1)) true
     | CNNS =>
         (* checkCommittee: l-(l-1)/2 of neo.GetCommittee() *)
         let l := Z.of_nat (length (e_committee e)) in
@@ -587,8 +590,17 @@ Definition opt_table (tbl : list (bytes * bytes)) (x : bytes) : option bytes :=
   end.
 
 (** An environment in which the Alphabet's GAS distribution cannot run. *)
-Definition env_basic (h : Z) (committee designated wit : list bytes) : env :=
-  mkEnv h committee designated wit 0 None (fun _ => None) (fun _ => None) (fun _ => true).
+(** RoleManagement: a designation made by a transaction of block N is stored
+    under index N+1; [GetDesignatedByRole(role, i)] answers with the latest
+    designation stored under an index <= i (the empty list if none).  [tbl]
+    lists the designations (stored index, keys) of the chain. *)
+Definition designation_at (tbl : list (Z * list bytes)) (i : Z) : list bytes :=
+  snd (fold_left (fun best ent => if (fst best <=? fst ent)%Z && (fst ent <=? i)%Z then ent else best)
+                 tbl ((-1)%Z, [])).
+
+Definition env_basic (h : Z) (committee : list bytes) (designations : list (Z * list bytes))
+                     (wit : list bytes) : env :=
+  mkEnv h committee (designation_at designations) wit 0 None (fun _ => None) (fun _ => None) (fun _ => true).
 
 Inductive mop : Type :=
 | OUpdate (c : contract) (vold : Z) (e : env) (mgmt_ok : bool) (data : item)
@@ -633,7 +645,7 @@ Fixpoint transfers_eqb (a b : list (bytes * Z)) : bool :=
   end.
 
 Definition env_alphabet (h gas : Z) (netmap : bytes) (nodes : list item) (ir : list bytes) : env :=
-  mkEnv h [] [] [] gas None
+  mkEnv h [] (fun _ => []) [] gas None
         (fun nm => if bytes_eqb nm netmap then Some nodes else None)
         (fun nm => if bytes_eqb nm netmap then Some ir else None)
         (fun _ => true).
